@@ -262,6 +262,9 @@ class Shelxfile():
             for restraint_atom in restraint.atoms:
                 if restraint_atom in ('>', '<', '='):
                     continue
+                if '_$' in restraint_atom:
+                    # C1_$2 is the symmetry equivalent of C1 generated by EQIV $2, only C1 has to exist:
+                    restraint_atom = restraint_atom.split('_$')[0]
                 if (restraint.residue_class or sum(restraint.residue_number) > 0) and '_' not in restraint_atom:
                     for num in restraint.residue_number:
                         self.does_atom_exist(f'{restraint_atom}_{num}', bad_atoms, f'{restraint_atom}_{num}')
